@@ -168,6 +168,26 @@ def apply_mod(data, mod):
             mo = MolecularOrbitals(mo.kind, mo.norba, mo.norbb, mo.occs, coeffs, mo.energies,
                                    mo.irreps, mo.occs_aminusb)
         data = attrs.evolve(data, obasis=obasis, mo=mo, one_rdms={})
+    elif op == "gen_shell":
+        # append one generalized (or SP-like) Cartesian shell on atom 0 with zero MO coefficients:
+        # the orbitals stay orthonormal, the basis gains a shell with the given angmoms pattern
+        angs = list(mod["angmoms"])
+        ncol = len(angs)
+        exps = [1.3, 0.4]
+        coeffs = [[0.6 + 0.1 * j for j in range(ncol)], [0.5 - 0.05 * j for j in range(ncol)]]
+        shells = list(data.obasis.shells)
+        # on the last centre, so that the shells stay sorted by centre (how a writer treats an
+        # unsorted shell list is C01's subject)
+        new = Shell(max(sh.icenter for sh in shells), angs, ["c"] * ncol, exps, coeffs)
+        shells.append(new)
+        obasis = MolecularBasis(shells, data.obasis.conventions, data.obasis.primitive_normalization)
+        mo = data.mo
+        if mo is not None and mo.coeffs is not None:
+            rows = new.nbasis * (2 if mo.kind == "generalized" else 1)
+            coeffs_mo = np.concatenate([mo.coeffs, np.zeros((rows, mo.coeffs.shape[1]))], axis=0)
+            mo = MolecularOrbitals(mo.kind, mo.norba, mo.norbb, mo.occs, coeffs_mo, mo.energies,
+                                   mo.irreps, mo.occs_aminusb)
+        data = attrs.evolve(data, obasis=obasis, mo=mo, one_rdms={})
     elif op == "pure_shell":
         # append one pure d shell on atom 0 (with zero MO coefficients)
         shells = list(data.obasis.shells)
